@@ -117,9 +117,23 @@ static int io_fault(int fd, const char *call, int is_write, size_t *len, ssize_t
   return 0;
 }
 
+/* the server's client sockets must be non-blocking: a read with nothing to read on a blocking socket
+   would never return (the peer lives in this thread).  Virtual time: report it and let the call fail
+   with EAGAIN so that the run goes on and ends. */
+static int would_hang(int fd, const char *call) {
+  char ch; int fl = real_fcntl(fd, F_GETFL, 0);
+  if (fl < 0 || (fl & O_NONBLOCK)) return 0;
+  if (real_recv(fd, &ch, 1, MSG_PEEK | MSG_DONTWAIT) < 0 && (errno == EAGAIN || errno == EWOULDBLOCK)) {
+    ev("wouldhang c%d %s", cid(fd), call);
+    errno = EAGAIN;
+    return 1;
+  }
+  return 0;
+}
 ssize_t read(int fd, void *buf, size_t n) {
   ssize_t r; reals();
   if (tracked(fd) && io_fault(fd, "read", 0, &n, &r)) return r;
+  if (tracked(fd) && would_hang(fd, "read")) return -1;
   return real_read(fd, buf, n);
 }
 ssize_t write(int fd, const void *buf, size_t n) {
@@ -130,6 +144,7 @@ ssize_t write(int fd, const void *buf, size_t n) {
 ssize_t recv(int fd, void *buf, size_t n, int flags) {
   ssize_t r; reals();
   if (tracked(fd) && io_fault(fd, "recv", 0, &n, &r)) return r;
+  if (tracked(fd) && would_hang(fd, "recv")) return -1;
   return real_recv(fd, buf, n, flags);
 }
 int close(int fd) {
@@ -229,7 +244,9 @@ static void ext_close(rfbClientPtr cl, void *data) {
 }
 static rfbProtocolExtension harness_ext = { ext_new, ext_init, NULL, NULL, NULL, ext_close, NULL, NULL, NULL };
 /* a second one without data, init or close hook (only its list node has to be released) */
-static rfbBool ext2_new(rfbClientPtr cl, void **data) { (void)cl; *data = NULL; return TRUE; }
+/* ... but WITH data (not heap: nothing to free): nobody may call its missing close hook for it */
+static int ext2_static;
+static rfbBool ext2_new(rfbClientPtr cl, void **data) { (void)cl; *data = &ext2_static; return TRUE; }
 static rfbProtocolExtension harness_ext2 = { ext2_new, NULL, NULL, NULL, NULL, NULL, NULL, NULL, NULL };
 /* VNC authentication with an application-supplied check: the response is right iff it starts with 1 */
 static rfbBool pw_check(rfbClientPtr cl, const char *response, int len) { (void)cl; return len > 0 && response[0] == 1; }
@@ -328,7 +345,7 @@ static void print_state(void) {
       printf("c%d:L1:%s:h%d:%s:g%d:k%d:", c->id, open ? "open" : "closed", me->onHold ? 1 : 0, stname(me), c->gone, c->closes);
       if (open) {
         int t = 0, k; for (k = 0; k < 4; k++) if (me->zsActive[k]) t++;
-        int ne = 0, nd = 0; rfbExtensionData *xd; for (xd = me->extensions; xd; xd = xd->next) { ne++; if (xd->data) nd++; }
+        int ne = 0, nd = 0; rfbExtensionData *xd; for (xd = me->extensions; xd; xd = xd->next) { ne++; if (xd->extension == &harness_ext && xd->data) nd++; }
         printf("s%dz%dt%dj%dr%db%du%dx%dw%dp%df%de%dd%d", scaled_index(me->scaledScreen), me->compStreamInited ? 1 : 0, t,
                me->tightTJ ? 1 : 0, me->zrleData ? 1 : 0, (me->beforeEncBuf ? 1 : 0) + (me->afterEncBuf ? 1 : 0),
                me->compStreamInitedLZO ? 1 : 0, me->translateLookupTable ? 1 : 0, me->wsctx ? 1 : 0,
@@ -361,6 +378,14 @@ static const char WS_REQ_TAIL[] =
   "Sec-WebSocket-Protocol: binary\r\nSec-WebSocket-Version: 13\r\n\r\n";
 
 static void run_ops(void);
+/* last resort against a wedged server: every op has to finish within a minute of real time */
+static char cur_op[128];
+static void watchdog(int sig) {
+  static const char m[] = "WATCHDOG: the server does not return from op: ";
+  (void)sig;
+  if (write(2, m, sizeof m - 1) < 0 || write(2, cur_op, strlen(cur_op)) < 0 || write(2, "\n", 1) < 0) _exit(4);
+  _exit(3);
+}
 static void finish(void);
 
 int main(void) {
@@ -368,6 +393,7 @@ int main(void) {
   reals();
   devnull = open("/dev/null", O_RDWR);
   signal(SIGPIPE, SIG_IGN);
+  signal(SIGALRM, watchdog);
   scr = vh_screen(FBW, FBH, 4);
   if (!scr) { fprintf(stderr, "no screen\n"); return 2; }
   vh_srand(12);
@@ -390,8 +416,11 @@ int main(void) {
 static void __attribute__((noinline)) run_ops(void) {
   char *line, *tok[32];
   while ((line = vh_readline())) {
-    int n = vh_split(line, tok, 32);
+    int n;
     conn_t *c;
+    snprintf(cur_op, sizeof cur_op, "%.120s", line);
+    alarm(60);
+    n = vh_split(line, tok, 32);
     if (n == 0 || tok[0][0] == '#') continue;
     if (!strcmp(tok[0], "variant")) { puts("ok"); fflush(stdout); continue; }
     if (!strcmp(tok[0], "end")) break;
